@@ -78,6 +78,10 @@ def morton_cells(tier, parts):
                 cells.append(Cell("morton.sizing.N%d.%s" % (n, sname), un, "h_morton_sizing", defines=dict(base, VERIF_USE_BMI2=1),
                                   replace=["morton_calculate_index", "morton_alloc_size_ctor"], unwind=5,
                                   closes_loops="harness loops over N (complete)", replay="morton"))
+            if "compose" in parts:
+                cells.append(Cell("morton.array_compose.N%d.%s" % (n, sname), un, "h_morton_array_compose", defines=dict(base, VERIF_USE_BMI2=1, DIMS_OUT=3, OUT_SCALAR_T="float"),
+                                  replace=["morton_calculate_index", "array_at"], unwind=5, backends=(("sat", 600), ("cadical", 600)),
+                                  closes_loops="harness loops over N (complete)", note="composition of the layer's index contract with the array backend's lookup contract; storage size symbolic up to 2^40 elements"))
             if "monotone" in parts:
                 cells.append(Cell("morton.monotone.N%d.%s" % (n, sname), un, "h_morton_monotone", defines=dict(base, VERIF_USE_BMI2=1),
                                   replace=["morton_calculate_index"], unwind=5, backends=(("sat", 300), ("cadical", 300)),
@@ -284,7 +288,7 @@ PROPS["C14"] = {
 
 # ------------------------------------------------------------------ C01
 def cells_C01(tier, consts):
-    cells = morton_cells(tier, ["index", "at", "injective", "sizing", "alloc", "monotone"])
+    cells = morton_cells(tier, ["index", "at", "injective", "sizing", "alloc", "monotone", "compose"])
     cells += strided_cells(tier, ["formula", "bound8", "bounded64", "alloc"])
     cells += hilbert_cells(tier, ["rot", "box", "alloc"], kmax_quick=8, kmax_thorough=11)
     cells += array_at_cells(tier)
